@@ -120,7 +120,7 @@ ROWS = [
      [[(">=", "(offset + count)", "count"), ("<=", "(offset + count)", "file->length")]],
      "mapped read [offset, offset + count) inside the mapping, sum not wrapped"),
     # --- CURRENT ---
-    ("read_current_filename", "src/version_set.c", IDX("name", "(len - 1)"), 1, [[("!=", "len", "0")]], "last byte of CURRENT"),
+    ("read_current_filename", "src/version_set.c", IDX("name"), 1, [[("!=", "data.size", "0")], [("!=", "len", "0")]], "last byte of CURRENT"),
     # --- file names / numbers ---
     ("ldb_decode_int", "src/util/strutil.c", lambda e: e["e"] == "asg" and key(e["lhs"]) == "x" and e["op"] == "*=", 1, [[]],
      "x * 10 (overflow guard checked by the edge rule below)"),
@@ -452,3 +452,4 @@ def check(ctx):
     wal.check_torn_tail(ctx)
     c17.check_layout(ctx)
     c12.check_aborts(ctx)
+    c17.check_current(ctx)        # CURRENT: non-empty and newline-terminated before it is used
